@@ -12,7 +12,7 @@ import gen, pipeline, model, impl, shex_text, findings as F, oracle, compare
 from props import base
 from shexer import consts as C
 
-PROPS_MODULES = ["ShexerModel.Props.C04"]
+PROPS_MODULES = ["ShexerModel.Props.C04", "ShexerModel.Props.C04b"]
 DEPS = ["MACRO_MAPPING", "check_correct_output_params", "most_general_cardinality"]
 replay = base.replay
 CARDS = {1: '{1}', 2: '{2}', '+': '+'}
